@@ -149,6 +149,10 @@ def run_property(prop, tier, seed, shared=None):
         print("  %s: expected %s; %s  [%s]%s" % (o.rule, o.what, o.detail, o.loc or '', '' if c.config == 'default' else ' (config %s)' % c.config))
         print("VIOLATION property=%s replay=%s" % (prop, path))
         rc = 1
+    if os.environ.get('VERIF_VERBOSE'):
+        for c in ctxs:
+            for o in c.obs:
+                print("   [%s] %s | %s | %s | %s" % ('ok' if o.ok else 'FAIL', o.key, o.what, o.detail, o.loc))
     if rc == 0:
         print("%s: %d obligations discharged over %d config(s), %d rules, %.1fs" % (
             prop, discharged, len(ctxs), len(rules_run), time.time() - t0))
